@@ -49,7 +49,7 @@ def build_url(sc):
 def plan(tier, seed):
     items = [{"kind": "grid", "scheme": "ws", "exhaustive": "scheme x host form x port class x path class x query class"}]
     items.append({"kind": "grid", "scheme": "wss", "exhaustive": "scheme x host form x port class x path class x query class"})
-    n = 8000 if tier == "quick" else 150000
+    n = 8000 if tier == "quick" else 600000
     per = 250 if tier == "quick" else 2500
     for s in range(0, n, per):
         items.append({"kind": "rand", "start": s, "count": per})
